@@ -17,6 +17,7 @@ package main
 //	t <tid> ins <path> <hex> | del <path> | get <path> | iter | root | changes | count | deletes | save | savec
 //	        | missing | allmissing | hasmissing | pause <n> | sleep <microseconds>
 //	        | cins <k> <path> <hex> | cdel <k> <path> | cget <k> <path> | citer <k> | croot <k>   the operation on child trie k
+//	        | cmerge <k>    MergeMPTChanges(child k) into the shared trie while other goroutines keep updating child k
 //	        | deletes       GetDeletes: number of nodes, and how many of them are MergeDB's dead nodes
 //	        | mergedb       MergeDB(donor store, donor root, two dead nodes): the trie becomes the donor trie
 //	        | mergechild <path> <hex>   child trie opened at the current root inserts the key, MergeMPTChanges(child)
@@ -50,14 +51,14 @@ func init() {
 	childModes["c16child"] = c16Child
 	register(&Suite{
 		Name: "c16",
-		Rule: "2-6 goroutines run scripts (ins/del/get/iter/root/GetChanges/GetChangeCount/GetDeletes/SaveChanges/missing-node reads, random Gosched/sleeps) over one shared trie on mem/level/pndb stores; scenarios: lookups into nodes removed from the store, disjoint key sets, overlapping key sets, readers vs writer vs saver, several tries over one store (child tries on their own LevelNodeDB layered over the shared trie's store, one goroutine each, plus readers of the shared trie: every child must behave as a map of its own), merges (MergeDB from a donor store with dead nodes and MergeMPTChanges from a child trie vs back-to-back GetDeletes/GetChanges; GetDeletes must list the dead nodes of exactly the merges before it), snapshot stress (writers vs back-to-back GetChanges, each returned (root, changes, deletes, startRoot) replayed over the setup store and required to be one complete state); child process under the race detector (exit 66 = DATA RACE); porcupine against the map specification; final root/content and saved change sets checked; non-trivial = >= 2 goroutines and (a successful concurrent update or >= 2 absent-node hits)",
+		Rule: "2-6 goroutines run scripts (ins/del/get/iter/root/GetChanges/GetChangeCount/GetDeletes/SaveChanges/missing-node reads, random Gosched/sleeps) over one shared trie on mem/level/pndb stores; scenarios: lookups into nodes removed from the store, disjoint key sets, overlapping key sets, readers vs writer vs saver, several tries over one store (child tries on their own LevelNodeDB layered over the shared trie's store, one goroutine each, plus readers of the shared trie: every child must behave as a map of its own), a child trie that is updated by one goroutine while another merges it into the shared trie (a merge that returns ok must install the child's content of ONE instant inside the call and leave every node resolvable; stale must change nothing), merges (MergeDB from a donor store with dead nodes and MergeMPTChanges from a child trie vs back-to-back GetDeletes/GetChanges; GetDeletes must list the dead nodes of exactly the merges before it), snapshot stress (writers vs back-to-back GetChanges, each returned (root, changes, deletes, startRoot) replayed over the setup store and required to be one complete state); child process under the race detector (exit 66 = DATA RACE); porcupine against the map specification; final root/content and saved change sets checked; non-trivial = >= 2 goroutines and (a successful concurrent update or >= 2 absent-node hits)",
 		Gen:  genC16,
 		Run:  runC16,
 		DefaultN: func(tier string) int {
 			if tier == "thorough" {
 				return 20000
 			}
-			return 900
+			return 700
 		},
 		CaseTimeout: 60 * time.Second,
 	})
@@ -375,6 +376,14 @@ func c16SnapCheck(root util.Key, changes []*util.NodeChange, deletes []util.Node
 }
 
 func c16Exec(mpt *util.MerklePatriciaTrie, db2 util.NodeDB, f []string, post *func() string) string {
+	if len(c16Children) == 0 {
+		switch f[0] {
+		case "cins", "cdel", "cget", "citer", "croot", "cmerge":
+			// malformed case (e.g. the shrinker dropped the `children` line): not a property failure
+			fmt.Fprintln(os.Stderr, "case uses child tries without a `children <n>` setup line")
+			os.Exit(3)
+		}
+	}
 	return guard(func() string {
 		if len(f[0]) > 1 && f[0][0] == 'c' {
 			switch f[0][1:] {
@@ -460,6 +469,18 @@ func c16Exec(mpt *util.MerklePatriciaTrie, db2 util.NodeDB, f []string, post *fu
 				root, ndb = c16Snap.donor.GetRoot(), c16Snap.donorDB
 			}
 			return errKind(mpt.MergeDB(ndb, root, c16DeadNodes(c16Snap.version)))
+		case "cmerge":
+			// merge child trie <k> - which other goroutines keep updating - into the shared trie
+			k, _ := strconv.Atoi(f[1])
+			err := mpt.MergeMPTChanges(c16Children[k%len(c16Children)])
+			*post = func() string { // the merger is the only goroutine that changes the shared trie: read it back
+				ps, err := iterPairs(mpt)
+				if err != nil {
+					return "res=incomplete(" + errKind(err) + ")"
+				}
+				return "res=ok c=" + fmtPairs(ps)
+			}
+			return errKind(err)
 		case "mergechild":
 			// a child trie opened at the current root inserts one key and is merged back (MergeMPTChanges):
 			// succeeds only if the shared trie's root is still the one the child started from
@@ -583,6 +604,75 @@ func c16Model(init string, version int64, removed bool, donor string) porcupine.
 			}
 			ok, ns := inner(st, in, out)
 			return ok, fmt.Sprintf("%d#%s", merges, ns)
+		},
+		DescribeOperation: func(input, output interface{}) string {
+			in := input.(linIn)
+			return fmt.Sprintf("%s %s %s -> %s", in.kind, ptok(in.key), in.val, output.(string))
+		},
+	}
+}
+
+// c16FamilyModel: the shared (parent) trie and its child tries as one system. State = "P|C0|C1|...": content of
+// the parent and of every child (all start from the setup content S). Child operations act on their child's map.
+// `cmerge k` (MergeMPTChanges) returning ok is, at ONE instant between its call and return, either a no-op (the
+// parent already equals the child) or installs the child's content of that instant in the parent, which is allowed
+// only while the parent still is at the content the child started from; `stale` leaves the parent unchanged and is
+// legal only when the parent has moved away from S. The content read back from the parent right after the merge
+// (c=...) must be the parent's content of the new state.
+func c16FamilyModel(init string, version int64, nChildren int) porcupine.Model {
+	inner := c16ContentStep(version)
+	start := init
+	for k := 0; k < nChildren; k++ {
+		start += "|" + init
+	}
+	return porcupine.Model{
+		Init:  func() interface{} { return start },
+		Equal: func(a, b interface{}) bool { return a.(string) == b.(string) },
+		Step: func(state, input, output interface{}) (bool, interface{}) {
+			st, in, out := state.(string), input.(linIn), output.(string)
+			parts := strings.Split(st, "|")
+			join := func() string { return strings.Join(parts, "|") }
+			switch {
+			case in.kind == "cmerge":
+				k, _ := strconv.Atoi(in.key)
+				k = 1 + k%nChildren
+				f := strings.Fields(out)
+				if len(f) == 0 {
+					return false, st
+				}
+				switch f[0] {
+				case "ok":
+					if parts[0] != parts[k] {
+						if parts[0] != init {
+							return false, st // the parent had moved on: this merge had to be rejected
+						}
+						parts[0] = parts[k]
+					}
+				case "stale":
+					if parts[0] == init {
+						return false, st
+					}
+				default:
+					return false, st
+				}
+				for i, x := range f {
+					if x == "res=ok" && i+1 < len(f) && strings.HasPrefix(f[i+1], "c=") && f[i+1][2:] != parts[0] {
+						return false, st
+					}
+				}
+				return true, join()
+			case len(in.kind) > 2 && in.kind[0] == 'c' && strings.Contains(in.kind, ":"):
+				j := strings.IndexByte(in.kind, ':')
+				k, _ := strconv.Atoi(in.kind[1:j])
+				k = 1 + k%nChildren
+				ok, ns := inner(parts[k], linIn{in.kind[j+1:], in.key, in.val}, out)
+				parts[k] = ns
+				return ok, join()
+			default:
+				ok, ns := inner(parts[0], in, out)
+				parts[0] = ns
+				return ok, join()
+			}
 		},
 		DescribeOperation: func(input, output interface{}) string {
 			in := input.(linIn)
@@ -882,7 +972,12 @@ func runC16(ops []string) (res CaseResult) {
 	childHist := map[int][]porcupine.Operation{}
 	fullState := removed
 	absentHits, updatesOK := 0, 0
-	emptyProbe := false
+	emptyProbe, hasCmerge, nChildren := false, false, 0
+	for _, op := range ops {
+		if f := strings.Fields(op); len(f) == 2 && f[0] == "children" {
+			nChildren, _ = strconv.Atoi(f[1])
+		}
+	}
 	onlyGetsHit := true
 	for i, op := range ops {
 		f := strings.Fields(op)
@@ -982,6 +1077,16 @@ func runC16(ops []string) (res CaseResult) {
 				onlyGetsHit = false
 			}
 			continue
+		case "cmerge":
+			in = linIn{"cmerge", f[3], ""}
+			fullState, hasCmerge = true, true
+			if strings.Contains(out, "res=incomplete") {
+				tags["merge-left-unresolvable-nodes"] = true
+				fail("op %d (%s): MergeMPTChanges returned %s but the shared trie has unresolvable nodes afterwards (%s)", i, op, strings.Fields(out)[0], out)
+			}
+			if strings.HasPrefix(out, "ok") {
+				updatesOK++
+			}
 		case "mergedb", "deletes":
 			in = linIn{f[2], "", ""}
 			fullState = true
@@ -1045,6 +1150,20 @@ func runC16(ops []string) (res CaseResult) {
 				porcupine.Operation{ClientId: 99, Input: linIn{"iter", "", ""}, Call: c, Output: it, Return: r + 1})
 		}
 	}
+	famModel := false
+	if hasCmerge {
+		// a child is merged while it is being written: one history over the family (shared trie + children)
+		for k, h := range childHist {
+			for _, o := range h {
+				in := o.Input.(linIn)
+				in.kind = fmt.Sprintf("c%d:%s", k, in.kind)
+				o.Input = in
+				hist = append(hist, o)
+			}
+		}
+		childHist = map[int][]porcupine.Operation{}
+		famModel = true
+	}
 	// every child trie is a map of its own that starts from the setup content, whatever the other tries do
 	for k, h := range childHist {
 		cm := c16Model(init, version, false, "")
@@ -1059,6 +1178,9 @@ func runC16(ops []string) (res CaseResult) {
 		}
 	}
 	model := c16Model(init, version, removed, contentStr(donor))
+	if famModel {
+		model = c16FamilyModel(init, version, nChildren)
+	}
 	if !fullState {
 		// only single-key operations: check each key's sub-history on its own (the final content becomes one
 		// final lookup per key; the final root is compared with the canonical root of the final content below)
@@ -1143,39 +1265,48 @@ func genC16(r *rand.Rand, tier string, idx int) []string {
 	ver := r.Intn(3)
 	ops := []string{fmt.Sprintf("new %s %d", stores[idx%3], ver)}
 	alpha := []string{"ab", "a0", "0123456789abcdef", "0f"}[r.Intn(4)]
-	scenario := idx % 4 // 0 absent nodes, 1 disjoint keys, 2 overlapping keys, 3 readers vs writer vs saver
+	// 0 absent nodes, 1 disjoint keys, 2 overlapping keys, 3 readers vs writer vs saver, 4 snapshot stress, 5 merges,
+	// 6 child tries over the shared store, 7 a child trie written while it is merged
+	sel := idx % 12
+	scenario := []int{0, 1, 2, 3, 0, 5, 2, 4, 0, 6, 3, 7}[sel]
 	maxThreads, maxOps := 4, 7
 	if tier == "thorough" {
 		maxThreads, maxOps = 6, 14
 	}
 	nThreads := 2 + r.Intn(maxThreads-1)
-	if idx%8 == 7 {
+	if scenario == 4 {
 		// snapshot stress: writers update continuously while snapshotters call GetChanges back to back - a
 		// GetChanges that is not ONE critical section returns the root of one state with the change set of another
-		scenario = 4
 		nThreads = 4 + r.Intn(2)
 		maxOps = 30
 		if tier == "thorough" {
 			maxOps = 60
 		}
 	}
-	if idx%8 == 3 {
+	if scenario == 6 {
 		// several tries over one store: child tries (own LevelNodeDB layered on the shared trie's store), each used
 		// by its own goroutine, plus readers of the shared (parent) trie, which nobody updates
-		scenario = 6
 		nThreads = 3 + r.Intn(3)
 		maxOps = 14
 		if tier == "thorough" {
 			maxOps = 28
 		}
 	}
-	if idx%8 == 5 {
+	if scenario == 5 {
 		// merges: MergeDB (the only writer of deleteNodes) and child merges vs back-to-back GetDeletes / GetChanges
-		scenario = 5
 		nThreads = 3 + r.Intn(3)
 		maxOps = 16
 		if tier == "thorough" {
 			maxOps = 30
+		}
+	}
+	if scenario == 7 {
+		// a child trie that is itself used concurrently: goroutine 0 (and sometimes 3) keeps updating child 0 while
+		// goroutine 1 merges it into the shared trie (MergeMPTChanges) and goroutine 2 reads the shared trie
+		nThreads = 3 + r.Intn(2)
+		maxOps = 20
+		if tier == "thorough" {
+			maxOps = 36
 		}
 	}
 	var pool []string
@@ -1205,6 +1336,9 @@ func genC16(r *rand.Rand, tier string, idx int) []string {
 	}
 	if scenario == 6 {
 		ops = append(ops, fmt.Sprintf("children %d", nThreads-1))
+	}
+	if scenario == 7 {
+		ops = append(ops, "children 1")
 	}
 	if scenario == 0 {
 		for k, n := 0, 1+r.Intn(2); k < n; k++ {
@@ -1257,6 +1391,13 @@ func genC16(r *rand.Rand, tier string, idx int) []string {
 			role = []string{"merger", "delreader", "writer", "delreader", "merger"}[tid%5]
 			n = maxOps/2 + r.Intn(maxOps/2)
 		}
+		if scenario == 7 {
+			role = []string{"child0user", "childmerger", "reader", "child0user"}[tid%4]
+			n = maxOps/2 + r.Intn(maxOps/2)
+			if role == "childmerger" {
+				n = 3 + r.Intn(4)
+			}
+		}
 		if scenario == 6 {
 			role = "childuser" // goroutine tid owns child trie tid; the last goroutine reads the parent
 			if tid == nThreads-1 {
@@ -1268,6 +1409,21 @@ func genC16(r *rand.Rand, tier string, idx int) []string {
 			x := r.Intn(100)
 			var line string
 			switch role {
+			case "child0user":
+				switch {
+				case x < 55:
+					p := key()
+					line = fmt.Sprintf("cins 0 %s %s", ptok(p), genValue(r))
+					pool = append(pool, p)
+				case x < 85:
+					line = fmt.Sprintf("cdel 0 %s", ptok(key()))
+				case x < 95:
+					line = fmt.Sprintf("cget 0 %s", ptok(key()))
+				default:
+					line = "croot 0"
+				}
+			case "childmerger":
+				line = "cmerge 0"
 			case "childuser":
 				switch {
 				case x < 40:
